@@ -39,6 +39,12 @@ CHECKS = {
  "C18": ("property-based testing (rapid): generated value pairs (one-leaf mutations at drawn depth, nil/empty, optional presence, map keys, struct-keyed maps) against a reference structural equality; reflexivity/symmetry/no-panic; set-uniqueness on Write",
          "Generated programs are compiled with gen_deep_equal and driven with generated pairs of values; x.DeepEqual(y) must equal the reference structural equality of the model values, be symmetric and reflexive and never panic; Write must fail exactly for sets with two equal elements.",
          "Trusted: the reference equality written from the property statement; readings the statement leaves open are not asserted."),
+ "C11": ("property-based testing (rapid): round-trip oracles for the plugin request codec with and without include compression (build-tag exports), and end-to-end differential between the request a scripted plugin decodes and the request built in-process, with scripted response shapes and injected plugin faults",
+         "Generated programs go through the real front end; the plugin request must survive Marshal/Unmarshal (also compressed) structurally unchanged and the compiler's tree must be restored; through the binary, a scripted plugin's decoded request must equal the in-process expectation and every response shape / fault (error, exit status, garbage, truncation, timeout) must be honoured as the property states.",
+         "Trusted: the scripted plugin (stdlib + thriftgo/plugin), idl.Diff structural comparison."),
+ "C07": ("property-based testing (rapid): metamorphic repeated-execution oracle on the thriftgo binary (same input, k fresh processes, varied GOMAXPROCS / output directory / dirty directory) over generated programs and configurations, incl. bytes sent to a recording plugin",
+         "Generated programs biased towards what can vary (annotation maps, map constants, many includes/exceptions) are compiled k times in fresh processes; the set of output files with their hashes and the plugin request bytes must be identical across runs.",
+         "Trusted: sha256, the recording plugin. Map-iteration nondeterminism is detected probabilistically per program (see assumptions)."),
 }
 NOT_YET = "check not built yet (work in progress; the technique applies, see DESIGN.md)"
 
